@@ -175,14 +175,24 @@ var (
 	ifOnce  sync.Once
 	ifL2    *net.Interface
 	ifOther *net.Interface
+	ifAllL2 []*net.Interface
 )
+
+// l2List returns every interface with a 6-byte hardware address
+func l2List() []*net.Interface {
+	ifaces()
+	return ifAllL2
+}
 
 func ifaces() (l2 *net.Interface, other *net.Interface) {
 	ifOnce.Do(func() {
 		ifs, _ := net.Interfaces()
 		for i := range ifs {
-			if len(ifs[i].HardwareAddr) == 6 && ifL2 == nil {
-				ifL2 = &ifs[i]
+			if len(ifs[i].HardwareAddr) == 6 {
+				ifAllL2 = append(ifAllL2, &ifs[i])
+				if ifL2 == nil {
+					ifL2 = &ifs[i]
+				}
 			}
 		}
 		for i := range ifs {
